@@ -661,6 +661,15 @@ Proof.
   - apply find_none_notin in E. contradiction.
 Qed.
 
+Lemma combine_fst {A B} (l : list A) (m : list B) : length l = length m -> map fst (combine l m) = l.
+Proof.
+  revert m. induction l as [|x t IH]; intros [|y m] H; cbn in *; try reflexivity; try discriminate.
+  f_equal. apply IH. congruence.
+Qed.
+
+Lemma tag_errs_fst errs off l : map fst (tag_errs errs off l) = l.
+Proof. unfold tag_errs. apply combine_fst. rewrite map_length, seq_length. reflexivity. Qed.
+
 Section InsertKnown.
   Variable P : maddr -> Prop.
 
@@ -674,28 +683,29 @@ Section InsertKnown.
     - apply find_none_notin in E. contradiction.
   Qed.
 
-  Lemma fail_all_inv k s l :
-    (forall a, In a l -> In a (keys s)) -> SInv P k s ->
-    SInv P k (fail_all k s l) /\ keys (fail_all k s l) = keys s.
+  Lemma fail_each_inv k s l :
+    (forall a, In a (map fst l) -> In a (keys s)) -> SInv P k s ->
+    SInv P k (fail_each k s l) /\ keys (fail_each k s l) = keys s.
   Proof.
-    revert s. induction l as [|a t IH]; intros s Hl Hs; cbn [fail_all]; [split; [exact Hs | reflexivity]|].
+    revert s. induction l as [|[a e] t IH]; intros s Hl Hs; cbn [fail_each]; [split; [exact Hs | reflexivity]|].
     assert (Ha : In a (keys s)) by (apply Hl; now left).
-    pose proof (insert_known_keys k s a (sc_failure k) None Ha) as Hk.
-    destruct (IH (fst (insert k s a (sc_failure k) None))) as [H1 H2].
+    pose proof (insert_known_keys k s a (error_score k e) None Ha) as Hk.
+    destruct (IH (fst (insert k s a (error_score k e) None))) as [H1 H2].
     - intros b Hb. rewrite Hk. apply Hl. now right.
     - apply insert_known_inv; assumption.
     - split; [exact H1 | rewrite H2; exact Hk].
   Qed.
 
   Lemma succeed_at_inv k s peer l j :
-    (forall a, In a l -> In a (keys s) /\ names peer a = true) -> SInv P k s ->
+    (forall a, In a (map fst l) -> In a (keys s) /\ names peer a = true) -> SInv P k s ->
     SInv P k (succeed_at k s peer l j).
   Proof.
     intros Hl Hs. unfold succeed_at.
-    destruct (fail_all_inv k s (firstn j l)) as [H1 Hk]; [|exact Hs|].
-    { intros a Ha. apply Hl. rewrite <- (firstn_skipn j l). apply in_or_app. now left. }
-    destruct (nth_error l j) as [a|] eqn:E; [|exact H1].
-    apply nth_error_In in E. destruct (Hl _ E) as [Hin Hn].
+    destruct (fail_each_inv k s (firstn j l)) as [H1 Hk]; [|exact Hs|].
+    { intros a Ha. apply Hl. rewrite <- (firstn_skipn j l), map_app. apply in_or_app. now left. }
+    destruct (nth_error l j) as [[a e]|] eqn:E; [|exact H1].
+    apply nth_error_In in E. destruct (Hl a) as [Hin Hn].
+    { change a with (fst (a, e)). apply in_map. exact E. }
     assert (Hw : with_peer peer a = a).
     { unfold names in Hn. destruct (last a (Other 0)) eqn:El; try discriminate.
       exact (with_peer_last _ _ _ El). }
@@ -704,20 +714,144 @@ Section InsertKnown.
     - apply insert_known_inv; [rewrite Hk; exact Hin | exact H1].
   Qed.
 
-  Lemma dial_outcome_inv k s peer outcome tcp ws :
+  Lemma dial_outcome_inv k s peer outcome errs tcp ws :
     (forall a, In a (tcp ++ ws) -> In a (keys s) /\ names peer a = true) -> SInv P k s ->
-    SInv P k (dial_outcome k s peer outcome tcp ws).
+    SInv P k (dial_outcome k s peer outcome errs tcp ws).
   Proof.
-    intros Hl Hs. unfold dial_outcome. destruct outcome as [|j0].
-    - destruct (fail_all_inv k s tcp) as [H1 Hk]; [|exact Hs|].
-      { intros a Ha. apply Hl. apply in_or_app. now left. }
-      destruct (fail_all_inv k (fail_all k s tcp) ws) as [H2 _]; [|exact H1|exact H2].
-      intros a Ha. rewrite Hk. apply Hl. apply in_or_app. now right.
+    intros Hl Hs. unfold dial_outcome.
+    assert (Ht : forall a, In a (map fst (tag_errs errs 0 tcp)) -> In a (keys s) /\ names peer a = true).
+    { intros a Ha. rewrite tag_errs_fst in Ha. apply Hl. apply in_or_app. now left. }
+    assert (Hw : forall a, In a (map fst (tag_errs errs (length tcp) ws)) -> In a (keys s) /\ names peer a = true).
+    { intros a Ha. rewrite tag_errs_fst in Ha. apply Hl. apply in_or_app. now right. }
+    destruct outcome as [|j0].
+    - destruct (fail_each_inv k s (tag_errs errs 0 tcp)) as [H1 Hk]; [|exact Hs|].
+      { intros a Ha. exact (proj1 (Ht a Ha)). }
+      destruct (fail_each_inv k (fail_each k s (tag_errs errs 0 tcp)) (tag_errs errs (length tcp) ws))
+        as [H2 _]; [|exact H1|exact H2].
+      intros a Ha. rewrite Hk. exact (proj1 (Hw a Ha)).
     - destruct (j0 mod (length tcp + length ws) <? length tcp)%nat.
-      + apply succeed_at_inv; [|exact Hs]. intros a Ha. apply Hl. apply in_or_app. now left.
-      + apply succeed_at_inv; [|exact Hs]. intros a Ha. apply Hl. apply in_or_app. now right.
+      + apply succeed_at_inv; assumption.
+      + apply succeed_at_inv; assumption.
   Qed.
 End InsertKnown.
+
+(* ---------- dial_address: what its address check lets through ---------- *)
+
+Lemma is_host_not h : is_host h = true -> is_quic h = false /\ is_ws h = false.
+Proof. destruct h; cbn; intro H; try discriminate H; split; reflexivity. Qed.
+
+Lemma is_host_host h : is_host h = true -> exists ho, host_of h = Some ho.
+Proof. destruct h; cbn; intro H; try discriminate H; eexists; reflexivity. Qed.
+
+(* names its peer, belongs to an enabled transport, and that transport's parser accepts it with
+   that peer (the host may be the unspecified address) *)
+Definition remembered_ok (c : cfg) (p : N) (a : maddr) : Prop :=
+  last a (Other 0) = P2p p /\ enabled c (route c a) = true /\
+  exists ho port, parse (route c a) a = Some (ho, port, Some p).
+
+Lemma dial_addr_ok_spec c st a t q :
+  dial_addr_check c st a = DAOk t q ->
+  free_capacity c st 0 <> None /\
+  existsb (maddr_eqb a) (listen_set c (lst st)) = false /\
+  route c a = t /\ remembered_ok c q a.
+Proof.
+  unfold dial_addr_check, remembered_ok.
+  destruct (free_capacity c st 0) as [lim|]; [|discriminate].
+  destruct (last a (Other 0)) eqn:Hl; try discriminate.
+  destruct (existsb (maddr_eqb a) (listen_set c (lst st))) eqn:Hself; [discriminate|].
+  destruct a as [|h rest]; [discriminate|].
+  destruct (is_host h) eqn:Hh; [|discriminate].
+  destruct (is_host_not _ Hh) as [Hq Hw]. destruct (is_host_host _ Hh) as [ho Hho].
+  destruct rest as [|x1 r1]; [discriminate|].
+  destruct x1; try discriminate.
+  - (* Tcp *)
+    destruct r1 as [|x2 r2]; [discriminate|].
+    destruct x2; try discriminate.
+    + (* Ws *)
+      destruct r2 as [|x3 r3]; [discriminate|].
+      destruct x3; try discriminate. destruct r3; [|discriminate].
+      destruct (enabled c TWs) eqn:He; [|discriminate]. intros [= <- <-].
+      cbn [last] in Hl. injection Hl as ->.
+      assert (Hr : route c [h; Tcp port; Ws; P2p p] = TWs).
+      { unfold route. cbn [existsb is_quic is_ws]. rewrite Hq, Hw. cbn [orb].
+        rewrite andb_false_r. cbn [enabled] in He. apply andb_true_iff in He. destruct He as [-> _].
+        reflexivity. }
+      rewrite Hr. repeat split; try congruence.
+      exists ho, port. cbn [parse sock_parse port_of]. rewrite Hho. reflexivity.
+    + (* Wss *)
+      destruct r2 as [|x3 r3]; [discriminate|].
+      destruct x3; try discriminate. destruct r3; [|discriminate].
+      destruct (enabled c TWs) eqn:He; [|discriminate]. intros [= <- <-].
+      cbn [last] in Hl. injection Hl as ->.
+      assert (Hr : route c [h; Tcp port; Wss; P2p p] = TWs).
+      { unfold route. cbn [existsb is_quic is_ws]. rewrite Hq, Hw. cbn [orb].
+        rewrite andb_false_r. cbn [enabled] in He. apply andb_true_iff in He. destruct He as [-> _].
+        reflexivity. }
+      rewrite Hr. repeat split; try congruence.
+      exists ho, port. cbn [parse sock_parse port_of]. rewrite Hho. reflexivity.
+    + (* P2p *)
+      destruct r2; [|discriminate].
+      destruct (enabled c TTcp) eqn:He; [|discriminate]. intros [= <- <-].
+      cbn [last] in Hl. injection Hl as ->.
+      assert (Hr : route c [h; Tcp port; P2p p] = TTcp).
+      { unfold route. cbn [existsb is_quic is_ws]. rewrite Hq, Hw. cbn [orb].
+        rewrite !andb_false_r. reflexivity. }
+      rewrite Hr. repeat split; try congruence.
+      exists ho, port. cbn [parse sock_parse port_of]. rewrite Hho. reflexivity.
+  - (* Udp *)
+    destruct r1 as [|x2 r2]; [discriminate|].
+    destruct x2; try discriminate.
+    destruct r2 as [|x3 r3]; [discriminate|].
+    destruct x3; try discriminate. destruct r3; [|discriminate].
+    destruct (enabled c TQuic) eqn:He; [|discriminate]. intros [= <- <-].
+    cbn [last] in Hl. injection Hl as ->.
+    assert (Hr : route c [h; Udp port; QuicV1; P2p p] = TQuic).
+    { unfold route. cbn [existsb is_quic is_ws]. rewrite Hq. cbn [orb].
+      cbn [enabled] in He. apply andb_true_iff in He. destruct He as [-> _]. reflexivity. }
+    rewrite Hr. repeat split; try congruence.
+    exists ho, port. cbn [parse sock_parse port_of]. rewrite Hho. reflexivity.
+Qed.
+
+(* the two filters agree on shapes: what add_known_address would accept, dial_address dials
+   (given free capacity, and unless it is literally a listen address) through the same transport *)
+Lemma first_ok_is_host h : first_ok h = true -> is_host h = true.
+Proof. destruct h; cbn; intro H; try discriminate H; reflexivity. Qed.
+
+Lemma supported_dial_addr c st a :
+  supported c a = true -> free_capacity c st 0 <> None ->
+  existsb (maddr_eqb a) (listen_set c (lst st)) = false ->
+  exists q, last a (Other 0) = P2p q /\ dial_addr_check c st a = DAOk (route c a) q.
+Proof.
+  intros Hs Hc Hself. destruct (supported_dialable _ _ Hs) as [q [Hl [He _]]].
+  exists q. split; [exact Hl|]. unfold dial_addr_check.
+  destruct (free_capacity c st 0); [|congruence]. rewrite Hl, Hself.
+  destruct a as [|h rest]; cbn [supported] in Hs; [discriminate|].
+  destruct (first_ok h) eqn:Hf; [|discriminate]. rewrite (first_ok_is_host _ Hf).
+  destruct (first_ok_not _ Hf) as [Hq Hw].
+  destruct rest as [|x1 r1]; [discriminate|].
+  destruct x1; try discriminate.
+  - destruct r1 as [|x2 r2]; [discriminate|].
+    destruct x2; try discriminate.
+    + destruct r2 as [|x3 r3]; [discriminate|].
+      destruct x3; try discriminate. destruct r3; [|discriminate].
+      rewrite Hs. f_equal. unfold route. cbn [existsb is_quic is_ws]. rewrite Hq, Hw. cbn [orb].
+      rewrite andb_false_r. cbn [enabled] in Hs. apply andb_true_iff in Hs. destruct Hs as [-> _].
+      reflexivity.
+    + destruct r2 as [|x3 r3]; [discriminate|].
+      destruct x3; try discriminate. destruct r3; [|discriminate].
+      rewrite Hs. f_equal. unfold route. cbn [existsb is_quic is_ws]. rewrite Hq, Hw. cbn [orb].
+      rewrite andb_false_r. cbn [enabled] in Hs. apply andb_true_iff in Hs. destruct Hs as [-> _].
+      reflexivity.
+    + destruct r2; [|discriminate].
+      rewrite Hs. f_equal. unfold route. cbn [existsb is_quic is_ws]. rewrite Hq, Hw. cbn [orb].
+      rewrite !andb_false_r. reflexivity.
+  - destruct r1 as [|x2 r2]; [discriminate|].
+    destruct x2; try discriminate.
+    destruct r2 as [|x3 r3]; [discriminate|].
+    destruct x3; try discriminate. destruct r3; [|discriminate].
+    rewrite Hs. f_equal. unfold route. cbn [existsb is_quic is_ws]. rewrite Hq. cbn [orb].
+    cbn [enabled] in Hs. apply andb_true_iff in Hs. destruct Hs as [-> _]. reflexivity.
+Qed.
 
 Section BookInv.
   Variable c : cfg.
@@ -726,16 +860,21 @@ Section BookInv.
   Variable L0 : list maddr.
   (* P p a: address a may be stored for peer p *)
   Variable P : N -> maddr -> Prop.
+  (* what the user may hand to dial_address *)
+  Variable dial_wf : maddr -> Prop.
   Hypothesis P_add : forall ls p a, incl L0 ls -> acceptable c ls p a -> P p a.
+  Hypothesis P_dial : forall st a t q, dial_wf a -> dial_addr_check c st a = DAOk t q -> P q a.
 
   Definition BInv (b : book) : Prop := forall p s, get p b = Some s -> SInv (P p) k s.
   Definition StInv (st : state) : Prop := incl L0 (lst st) /\ BInv (bk st).
 
-  (* what the environment may feed into the dial-result operations *)
+  (* what the environment may feed into the raw dial-result operations and dial_address *)
   Definition op_wf (o : op) : Prop :=
     match o with
     | ODialFailure a _ _ => forall p, last a (Other 0) = P2p p -> P p a
     | OEstablished peer a false _ => P peer (with_peer peer a)
+    | OInsert peer a _ _ => P peer (with_peer peer a)
+    | ODialAddr a _ _ => dial_wf a
     | _ => True
     end.
 
@@ -777,7 +916,8 @@ Section BookInv.
   Proof.
     intros [Hl Hb] Hwf.
     destruct o as [peer addrs order victims | a f victim | peer a listener victim
-                  | peer limit obs | a | a | n | peer outcome tcp ws]; cbn [step].
+                  | peer limit obs | a | a | n | peer outcome errs tcp ws
+                  | peer a sc victim | a res victims | a | a]; cbn [step].
     - destruct (same_set order (accepted c (lst st) peer addrs)) eqn:Hss; [|split; assumption].
       pose proof (insert_all_inv peer (get_or_empty peer (bk st)) order victims
                     (binv_get_or_empty (bk st) peer Hb)) as H.
@@ -788,9 +928,9 @@ Section BookInv.
     - destruct (last a (Other 0)) eqn:Hla; try (split; assumption).
       cbn [op_wf] in Hwf. specialize (Hwf _ Hla).
       rewrite (with_peer_last p a p Hla).
-      pose proof (insert_inv (P p) k (get_or_empty p (bk st)) a (failure_score k f) victim
+      pose proof (insert_inv (P p) k (get_or_empty p (bk st)) a (error_score k f) victim
                     (binv_get_or_empty (bk st) p Hb) Hwf) as H.
-      destruct (insert k (get_or_empty p (bk st)) a (failure_score k f) victim) as [s' r].
+      destruct (insert k (get_or_empty p (bk st)) a (error_score k f) victim) as [s' r].
       cbn [fst set_bk lst bk] in *. split; [exact Hl|]. apply binv_put; assumption.
     - destruct listener; [split; assumption|]. cbn [op_wf] in Hwf.
       pose proof (insert_inv (P peer) k (get_or_empty peer (bk st)) (with_peer peer a)
@@ -822,6 +962,25 @@ Section BookInv.
       assert (existsb (fun x => negb (enabled c (route c (fst x)) && names peer (fst x))) s = true).
       { apply existsb_exists. exists x. split; [exact Hx2|]. rewrite Hx1, Hn, andb_false_r. reflexivity. }
       congruence.
+    - cbn [op_wf] in Hwf.
+      pose proof (insert_inv (P peer) k (get_or_empty peer (bk st)) (with_peer peer a)
+                    sc victim (binv_get_or_empty (bk st) peer Hb) Hwf) as H.
+      destruct (insert k (get_or_empty peer (bk st)) (with_peer peer a) sc victim) as [s' r].
+      cbn [fst set_bk lst bk] in *. split; [exact Hl|]. apply binv_put; assumption.
+    - cbn [op_wf] in Hwf.
+      destruct (dial_addr_check c st a) as [| | | |t q] eqn:Hd; try (split; assumption).
+      pose proof (P_dial st a t q Hwf Hd) as Pa.
+      pose proof (insert_inv (P q) k (get_or_empty q (bk st)) a 0 (hd_error victims)
+                    (binv_get_or_empty (bk st) q Hb) Pa) as H1.
+      destruct (insert k (get_or_empty q (bk st)) a 0 (hd_error victims)) as [s1 r1].
+      cbn [fst] in H1.
+      set (victims1 := match r1 with Evicted _ => tl victims | _ => victims end).
+      set (sc := match res with Some e => error_score k e | None => sc_established k end).
+      pose proof (insert_inv (P q) k s1 a sc (hd_error victims1) H1 Pa) as H2.
+      destruct (insert k s1 a sc (hd_error victims1)) as [s2 r2].
+      cbn [fst set_bk lst bk] in *. split; [exact Hl|]. apply binv_put; assumption.
+    - destruct (public_add c (pubs st) a) as [ps r]. cbn [fst lst bk]. split; assumption.
+    - cbn [fst lst bk]. split; assumption.
   Qed.
 
   Lemma run_inv h st : StInv st -> Forall op_wf h -> StInv (fst (run c k st h)).
@@ -833,39 +992,55 @@ Section BookInv.
     specialize (IH st1 H1 Ht). destruct (run c k st1 t) as [st2 rs]. exact IH.
   Qed.
 
-  Lemma stinv_start : StInv (mkState [] L0 0).
+  Lemma stinv_start : StInv (mkState [] L0 0 []).
   Proof. split; [apply incl_refl|]. intros p s. cbn [bk get]. discriminate. Qed.
 End BookInv.
 
 (* bound and key uniqueness need no assumption on the environment *)
-Lemma op_wf_true o : op_wf (fun _ _ => True) o.
-Proof. destruct o as [| | ? ? [|] ?| | | | |]; cbn; auto. Qed.
+Lemma op_wf_true o : op_wf (fun _ _ => True) (fun _ => True) o.
+Proof. destruct o as [| | ? ? [|] ?| | | | | | | | |]; cbn; auto. Qed.
 
 Lemma final_bound c k h p s :
   get p (bk (final c k h)) = Some s -> (length s <= cap k)%nat /\ NoDup (keys s).
 Proof.
   intro H.
   assert (Hi : StInv k [] (fun _ _ => True) (final c k h)).
-  { apply run_inv; [auto | apply (stinv_start k []) |].
+  { apply (run_inv c k [] (fun _ _ => True) (fun _ => True)); [auto | auto | apply (stinv_start k []) |].
     apply Forall_forall. intros o _. apply op_wf_true. }
   destruct Hi as [_ Hi]. destruct (Hi _ _ H) as [Hb Hn _]. split; assumption.
 Qed.
 
+(* what may be handed to dial_address when the strong invariant is wanted: an address that
+   add_known_address would have accepted for the peer it names *)
+Definition dial_acceptable (c : cfg) (L0 : list maddr) (a : maddr) : Prop :=
+  forall q, last a (Other 0) = P2p q -> acceptable c L0 q a.
+Definition op_ok (c : cfg) (L0 : list maddr) : op -> Prop :=
+  op_wf (acceptable c L0) (dial_acceptable c L0).
+
+Lemma acceptable_hyps c L0 :
+  (forall ls p a, incl L0 ls -> acceptable c ls p a -> acceptable c L0 p a) /\
+  (forall st a t q, dial_acceptable c L0 a -> dial_addr_check c st a = DAOk t q -> acceptable c L0 q a).
+Proof.
+  split.
+  - intros ls q b Hincl [H1 [H2 H3]]. repeat split; [exact H1 | | exact H3].
+    exact (is_local_mono _ _ _ _ Hincl H2).
+  - intros st a t q Hw Hd. apply Hw.
+    destruct (dial_addr_ok_spec _ _ _ _ _ Hd) as [_ [_ [_ [Hl _]]]]. exact Hl.
+Qed.
+
 (* attribution, locality and dialability of everything remembered: if the node registered the
-   listen addresses L0 first and the dial results reported by the transports are about addresses
-   acceptable for that peer, then whatever happens afterwards (including further listen
-   addresses) every remembered address names its peer, is supported, dialable, and is not local
-   with respect to L0 *)
+   listen addresses L0 first, the dial results reported by the transports are about addresses
+   acceptable for that peer and so are the addresses handed to dial_address, then whatever happens
+   afterwards (including further listen addresses) every remembered address names its peer, is
+   supported, dialable, and is not local with respect to L0 *)
 Lemma run_acceptable c k L0 h p s a z :
-  Forall (op_wf (acceptable c L0)) h ->
-  get p (bk (fst (run c k (mkState [] L0 0) h))) = Some s -> In (a, z) s ->
+  Forall (op_ok c L0) h ->
+  get p (bk (fst (run c k (mkState [] L0 0 []) h))) = Some s -> In (a, z) s ->
   acceptable c L0 p a /\ dialable c a p.
 Proof.
-  intros Hw Hg Hin.
-  assert (Hi : StInv k L0 (acceptable c L0) (fst (run c k (mkState [] L0 0) h))).
-  { apply (run_inv c k L0); [|apply stinv_start|exact Hw].
-    intros ls q b Hincl [H1 [H2 H3]]. repeat split; [exact H1 | | exact H3].
-    exact (is_local_mono _ _ _ _ Hincl H2). }
+  intros Hw Hg Hin. destruct (acceptable_hyps c L0) as [Ha1 Ha2].
+  assert (Hi : StInv k L0 (acceptable c L0) (fst (run c k (mkState [] L0 0 []) h))).
+  { apply (run_inv c k L0 _ (dial_acceptable c L0)); [exact Ha1|exact Ha2|apply stinv_start|exact Hw]. }
   destruct Hi as [_ Hi]. destruct (Hi _ _ Hg) as [_ _ Ha]. rewrite Forall_forall in Ha.
   specialize (Ha _ Hin). cbn [fst] in Ha. split; [exact Ha|].
   destruct Ha as [Hs [_ Hl]]. destruct (supported_dialable _ _ Hs) as [q [Hq Hd]].
@@ -874,12 +1049,38 @@ Qed.
 
 (* the invariant is inductive from any state *)
 Lemma step_acceptable c k L0 st o :
-  StInv k L0 (acceptable c L0) st -> op_wf (acceptable c L0) o ->
+  StInv k L0 (acceptable c L0) st -> op_ok c L0 o ->
   StInv k L0 (acceptable c L0) (fst (step c k st o)).
 Proof.
-  apply (step_inv c k L0).
-  intros ls q b Hincl [H1 [H2 H3]]. repeat split; [exact H1 | | exact H3].
-  exact (is_local_mono _ _ _ _ Hincl H2).
+  destruct (acceptable_hyps c L0) as [Ha1 Ha2].
+  apply (step_inv c k L0 _ (dial_acceptable c L0)); assumption.
+Qed.
+
+(* the weaker statement that also covers everything dial_address stores, whatever it is handed:
+   every remembered address names its peer and is parsed, with that peer, by the enabled transport
+   it is routed to. (dial_address does not apply the unspecified-host and is_local filters of
+   add_known_address; it only refuses addresses that literally are listen addresses.) *)
+Definition op_weak (c : cfg) : op -> Prop := op_wf (remembered_ok c) (fun _ => True).
+
+Lemma acceptable_remembered c ls p a : acceptable c ls p a -> remembered_ok c p a.
+Proof.
+  intros [Hs [_ Hl]]. destruct (supported_dialable _ _ Hs) as [q [Hq [He [ho [port [Hp _]]]]]].
+  rewrite Hl in Hq. injection Hq as <-. split; [exact Hl|]. split; [exact He|].
+  exists ho, port. exact Hp.
+Qed.
+
+Lemma run_remembered c k L0 h p s a z :
+  Forall (op_weak c) h ->
+  get p (bk (fst (run c k (mkState [] L0 0 []) h))) = Some s -> In (a, z) s ->
+  remembered_ok c p a.
+Proof.
+  intros Hw Hg Hin.
+  assert (Hi : StInv k L0 (remembered_ok c) (fst (run c k (mkState [] L0 0 []) h))).
+  { apply (run_inv c k L0 _ (fun _ => True)); [| |apply stinv_start|exact Hw].
+    - intros ls q b _ Ha. exact (acceptable_remembered _ _ _ _ Ha).
+    - intros st b t q _ Hd. exact (proj2 (proj2 (proj2 (dial_addr_ok_spec _ _ _ _ _ Hd)))). }
+  destruct Hi as [_ Hi]. destruct (Hi _ _ Hg) as [_ _ Ha]. rewrite Forall_forall in Ha.
+  exact (Ha _ Hin).
 Qed.
 
 (* add_known_address on addresses that are all known already changes nothing *)
@@ -1020,71 +1221,149 @@ Proof.
   apply find_none_notin in E. contradiction.
 Qed.
 
-Lemma fail_all_find k s l b :
-  NoDup (keys s) -> (forall a, In a l -> In a (keys s)) -> sc_failure k <> 0 ->
-  find b (fail_all k s l) =
-    if existsb (maddr_eqb b) l then Some (sc_failure k) else find b s.
+Lemma classic_in (b : maddr) l : In b l \/ ~ In b l.
 Proof.
-  intros Hnd Hl Hf. revert s Hnd Hl. induction l as [|a t IH]; intros s Hnd Hl; cbn [fail_all existsb];
-    [reflexivity|].
+  destruct (existsb (maddr_eqb b) l) eqn:E.
+  - left. apply existsb_maddr. exact E.
+  - right. intro H. apply existsb_maddr in H. congruence.
+Qed.
+
+(* the error kind recorded for an address in a list of failed attempts *)
+Fixpoint lookup_err (b : maddr) (l : list (maddr * dial_error)) : option dial_error :=
+  match l with
+  | [] => None
+  | (a, e) :: t => if maddr_eqb a b then Some e else lookup_err b t
+  end.
+
+Lemma lookup_err_none b l : lookup_err b l = None <-> ~ In b (map fst l).
+Proof.
+  induction l as [|[a e] t IH]; cbn [lookup_err map fst In]; [tauto|].
+  destruct (maddr_eqb a b) eqn:E.
+  - apply maddr_eqb_spec in E. subst. split; [discriminate | intro H; exfalso; apply H; now left].
+  - apply maddr_eqb_false in E. rewrite IH. tauto.
+Qed.
+
+Lemma lookup_err_some b l e : lookup_err b l = Some e -> In b (map fst l).
+Proof.
+  intro H. destruct (lookup_err_none b l) as [_ H2].
+  destruct (classic_in b (map fst l)) as [Hin|Hn]; [exact Hin|].
+  rewrite (H2 Hn) in H. discriminate.
+Qed.
+
+Lemma lookup_err_app b l1 l2 :
+  lookup_err b (l1 ++ l2) = match lookup_err b l1 with Some e => Some e | None => lookup_err b l2 end.
+Proof.
+  induction l1 as [|[a e] t IH]; cbn [app lookup_err]; [reflexivity|].
+  destruct (maddr_eqb a b); [reflexivity | exact IH].
+Qed.
+
+Lemma fail_each_keys k s l :
+  (forall a, In a (map fst l) -> In a (keys s)) -> keys (fail_each k s l) = keys s.
+Proof.
+  revert s. induction l as [|[a e] t IH]; intros s Hl; cbn [fail_each]; [reflexivity|].
+  assert (Ha : In a (keys s)) by (apply Hl; now left).
+  pose proof (insert_known_keys k s a (error_score k e) None Ha) as Hk.
+  rewrite IH; [exact Hk|]. intros x Hx. rewrite Hk. apply Hl. now right.
+Qed.
+
+(* every failed attempt re-scores exactly its address to the score of its error kind *)
+Lemma fail_each_find k s l b :
+  NoDup (keys s) -> NoDup (map fst l) -> (forall a, In a (map fst l) -> In a (keys s)) ->
+  (forall e, error_score k e <> 0) ->
+  find b (fail_each k s l) =
+    match lookup_err b l with Some e => Some (error_score k e) | None => find b s end.
+Proof.
+  intros Hnd Hndl Hl Hf. revert s Hnd Hl.
+  induction l as [|[a e] t IH]; intros s Hnd Hl; cbn [fail_each lookup_err]; [reflexivity|].
+  inversion Hndl as [|? ? Hna Hndt]; subst.
   assert (Ha : In a (keys s)) by (apply Hl; now left).
   destruct (in_keys_find _ _ Ha) as [z0 Hz].
-  destruct (insert_rescore k s a (sc_failure k) None z0 Hz Hf) as [_ [H1 [H2 H3]]].
-  rewrite IH.
-  - destruct (maddr_eqb b a) eqn:E; cbn [orb].
+  destruct (insert_rescore k s a (error_score k e) None z0 Hz (Hf e)) as [_ [H1 [H2 H3]]].
+  rewrite (IH Hndt).
+  - destruct (maddr_eqb a b) eqn:E.
     + apply maddr_eqb_spec in E. subst b.
-      destruct (existsb (maddr_eqb a) t); [reflexivity | exact H1].
-    + destruct (existsb (maddr_eqb b) t); [reflexivity|].
+      assert (Hn : lookup_err a t = None) by (apply lookup_err_none; exact Hna).
+      rewrite Hn. exact H1.
+    + destruct (lookup_err b t); [reflexivity|].
       apply H3. intros ->. rewrite maddr_eqb_refl in E. discriminate.
   - rewrite H2. exact Hnd.
   - intros x Hx. rewrite H2. apply Hl. now right.
 Qed.
 
-Lemma fail_all_keys k s l :
-  (forall a, In a l -> In a (keys s)) -> keys (fail_all k s l) = keys s.
+Lemma nodup_app_l {A} (l1 l2 : list A) : NoDup (l1 ++ l2) -> NoDup l1.
 Proof.
-  revert s. induction l as [|a t IH]; intros s Hl; cbn [fail_all]; [reflexivity|].
-  assert (Ha : In a (keys s)) by (apply Hl; now left).
-  pose proof (insert_known_keys k s a (sc_failure k) None Ha) as Hk.
-  rewrite IH; [exact Hk|]. intros x Hx. rewrite Hk. apply Hl. now right.
+  induction l1 as [|x t IH]; cbn [app]; intro H; [constructor|].
+  inversion H as [|? ? Hx Hd]; subst. constructor; [|exact (IH Hd)].
+  intro Hin. apply Hx. apply in_or_app. now left.
 Qed.
 
-(* every attempt timed out: exactly the tried addresses get the failure score *)
-Lemma dial_all_fail_find k s peer tcp ws b :
-  NoDup (keys s) -> (forall a, In a (tcp ++ ws) -> In a (keys s)) -> sc_failure k <> 0 ->
-  find b (dial_outcome k s peer 0 tcp ws) =
-    if existsb (maddr_eqb b) (tcp ++ ws) then Some (sc_failure k) else find b s.
+Lemma nodup_app_r {A} (l1 l2 : list A) : NoDup (l1 ++ l2) -> NoDup l2.
 Proof.
-  intros Hnd Hl Hf. cbn [dial_outcome].
-  assert (Ht : forall a, In a tcp -> In a (keys s)) by (intros a Ha; apply Hl, in_or_app; now left).
-  assert (Hw : forall a, In a ws -> In a (keys s)) by (intros a Ha; apply Hl, in_or_app; now right).
-  pose proof (fail_all_keys k s tcp Ht) as Hk.
-  rewrite fail_all_find; [|rewrite Hk; exact Hnd|intros a Ha; rewrite Hk; exact (Hw _ Ha)|exact Hf].
-  rewrite fail_all_find by assumption.
-  rewrite existsb_app.
-  destruct (existsb (maddr_eqb b) tcp); destruct (existsb (maddr_eqb b) ws); reflexivity.
+  induction l1 as [|x t IH]; cbn [app]; intro H; [exact H|].
+  inversion H; subst. apply IH. assumption.
 Qed.
 
-(* attempt j succeeded after the earlier ones on that transport timed out: the address used gets
-   the established score, the earlier ones the failure score, nothing else changes *)
-Lemma succeed_at_find k s peer l j a b :
-  NoDup (keys s) -> (forall x, In x l -> In x (keys s)) ->
-  nth_error l j = Some a -> names peer a = true ->
-  sc_failure k <> 0 -> sc_established k <> 0 ->
+(* every attempt failed: exactly the tried addresses are re-scored, each to the score of the
+   error kind its attempt failed with *)
+Lemma dial_all_fail_find k s peer errs tcp ws b :
+  NoDup (keys s) -> NoDup (tcp ++ ws) -> (forall a, In a (tcp ++ ws) -> In a (keys s)) ->
+  (forall e, error_score k e <> 0) ->
+  find b (dial_outcome k s peer 0 errs tcp ws) =
+    match lookup_err b (tag_errs errs 0 tcp ++ tag_errs errs (length tcp) ws) with
+    | Some e => Some (error_score k e)
+    | None => find b s
+    end.
+Proof.
+  intros Hnd Hndl Hl Hf. cbn [dial_outcome].
+  assert (Ht : forall a, In a (map fst (tag_errs errs 0 tcp)) -> In a (keys s)).
+  { intros a Ha. rewrite tag_errs_fst in Ha. apply Hl, in_or_app. now left. }
+  assert (Hw : forall a, In a (map fst (tag_errs errs (length tcp) ws)) -> In a (keys s)).
+  { intros a Ha. rewrite tag_errs_fst in Ha. apply Hl, in_or_app. now right. }
+  pose proof (fail_each_keys k s _ Ht) as Hk.
+  rewrite fail_each_find; [|rewrite Hk; exact Hnd|rewrite tag_errs_fst; exact (nodup_app_r _ _ Hndl)
+                           |intros a Ha; rewrite Hk; exact (Hw _ Ha)|exact Hf].
+  rewrite fail_each_find; [|exact Hnd|rewrite tag_errs_fst; exact (nodup_app_l _ _ Hndl)|exact Ht|exact Hf].
+  rewrite lookup_err_app.
+  destruct (lookup_err b (tag_errs errs 0 tcp)) as [e1|] eqn:E1;
+    destruct (lookup_err b (tag_errs errs (length tcp) ws)) as [e2|] eqn:E2; try reflexivity.
+  (* an address in both lists: excluded by NoDup *)
+  exfalso.
+  assert (H1 : In b tcp).
+  { rewrite <- (tag_errs_fst errs 0 tcp). exact (lookup_err_some _ _ _ E1). }
+  assert (H2 : In b ws).
+  { rewrite <- (tag_errs_fst errs (length tcp) ws). exact (lookup_err_some _ _ _ E2). }
+  clear - Hndl H1 H2. induction tcp as [|x t IH]; [destruct H1|].
+  cbn [app] in Hndl. inversion Hndl as [|? ? Hx Hd]; subst. destruct H1 as [->|H1].
+  - apply Hx. apply in_or_app. now right.
+  - exact (IH Hd H1).
+Qed.
+
+(* attempt j succeeded after the earlier ones on that transport failed: the address used gets
+   the established score, the earlier ones the score of their error kind, nothing else changes *)
+Lemma succeed_at_find k s peer l j a e0 b :
+  NoDup (keys s) -> NoDup (map fst l) -> (forall x, In x (map fst l) -> In x (keys s)) ->
+  nth_error l j = Some (a, e0) -> names peer a = true ->
+  (forall e, error_score k e <> 0) -> sc_established k <> 0 ->
   find b (succeed_at k s peer l j) =
     if maddr_eqb b a then Some (sc_established k)
-    else if existsb (maddr_eqb b) (firstn j l) then Some (sc_failure k) else find b s.
+    else match lookup_err b (firstn j l) with
+         | Some e => Some (error_score k e)
+         | None => find b s
+         end.
 Proof.
-  intros Hnd Hl Hj Hn Hf He. unfold succeed_at. rewrite Hj.
+  intros Hnd Hndl Hl Hj Hn Hf He. unfold succeed_at. rewrite Hj.
   assert (Hw : with_peer peer a = a).
   { unfold names in Hn. destruct (last a (Other 0)) eqn:El; try discriminate.
     exact (with_peer_last _ _ _ El). }
   rewrite Hw.
-  assert (Hfl : forall x, In x (firstn j l) -> In x (keys s)).
-  { intros x Hx. apply Hl. rewrite <- (firstn_skipn j l). apply in_or_app. now left. }
-  set (s1 := fail_all k s (firstn j l)).
-  assert (Hk1 : keys s1 = keys s) by (apply fail_all_keys; exact Hfl).
-  assert (Ha1 : In a (keys s1)) by (rewrite Hk1; apply Hl; exact (nth_error_In _ _ Hj)).
+  assert (Hfl : forall x, In x (map fst (firstn j l)) -> In x (keys s)).
+  { intros x Hx. apply Hl. rewrite <- (firstn_skipn j l), map_app. apply in_or_app. now left. }
+  assert (Hndf : NoDup (map fst (firstn j l))).
+  { rewrite <- (firstn_skipn j l), map_app in Hndl. exact (nodup_app_l _ _ Hndl). }
+  set (s1 := fail_each k s (firstn j l)).
+  assert (Hk1 : keys s1 = keys s) by (apply fail_each_keys; exact Hfl).
+  assert (Ha1 : In a (keys s1)).
+  { rewrite Hk1. apply Hl. change a with (fst (a, e0)). apply in_map. exact (nth_error_In _ _ Hj). }
   destruct (in_keys_find _ _ Ha1) as [z1 Hz1].
   destruct (insert_rescore k s1 a (sc_established k) None z1 Hz1 He) as [_ [H1 [H2 H3]]].
   set (s2 := fst (insert k s1 a (sc_established k) None)) in *.
@@ -1092,7 +1371,7 @@ Proof.
   destruct (maddr_eqb b a) eqn:E.
   - apply maddr_eqb_spec in E. subst b. exact H4.
   - assert (Hba : b <> a) by (intros ->; rewrite maddr_eqb_refl in E; discriminate).
-    rewrite (H6 _ Hba), (H3 _ Hba). unfold s1. apply fail_all_find; assumption.
+    rewrite (H6 _ Hba), (H3 _ Hba). unfold s1. apply fail_each_find; assumption.
 Qed.
 
 Lemma free_capacity_spec c st n limit :
@@ -1110,8 +1389,8 @@ Qed.
 (* dial(peer): the lists handed to the transports' open() are, merged, a valid
    addresses(limit) selection for limit = free outbound capacity; every address goes to the
    installed transport it is routed to; the outcome is then recorded by dial_outcome *)
-Lemma step_dial_tried c k st peer outcome tcp ws t w st' :
-  step c k st (ODial peer outcome tcp ws) = (st', RDial (DTried t w)) ->
+Lemma step_dial_tried c k st peer outcome errs tcp ws t w st' :
+  step c k st (ODial peer outcome errs tcp ws) = (st', RDial (DTried t w)) ->
   let s := get_or_empty peer (bk st) in
   exists limit,
     free_capacity c st (length s) = Some limit /\
@@ -1121,7 +1400,7 @@ Lemma step_dial_tried c k st peer outcome tcp ws t w st' :
     Permutation (merge_desc t w) (t ++ w) /\
     Forall (fun a => In a (keys s) /\ names peer a = true /\ route c a = TTcp /\ enabled c TTcp = true) tcp /\
     Forall (fun a => In a (keys s) /\ names peer a = true /\ route c a = TWs /\ enabled c TWs = true) ws /\
-    st' = set_bk st (put peer (dial_outcome k s peer outcome tcp ws) (bk st)).
+    st' = set_bk st (put peer (dial_outcome k s peer outcome errs tcp ws) (bk st)).
 Proof.
   cbn [step]. set (s := get_or_empty peer (bk st)). cbn zeta.
   destruct (existsb (fun x => negb (enabled c (route c (fst x)) && names peer (fst x))) s) eqn:Hg;
@@ -1156,4 +1435,521 @@ Proof.
   - apply Forall_forall. intros a Ha. rewrite forallb_forall in Hrw. specialize (Hrw _ Ha).
     destruct (Hfacts a (in_or_app _ _ _ (or_intror Ha))) as [H1 [H2 H3]].
     destruct (route c a) eqn:Hr; try discriminate. repeat split; assumption.
+Qed.
+
+(* ====================================================================================== *)
+(* ---------- DialError: the enumeration is complete, codes are unambiguous ---------- *)
+
+Lemma all_dial_errors_complete e : In e all_dial_errors.
+Proof.
+  destruct e as [|[]|[]|[| | | | |[]| | | |[]|]]; cbn;
+    repeat (first [left; reflexivity | right]).
+Qed.
+
+Lemma forall_errors (Pb : dial_error -> bool) :
+  forallb Pb all_dial_errors = true -> forall e, Pb e = true.
+Proof. intros H e. rewrite forallb_forall in H. apply H, all_dial_errors_complete. Qed.
+
+Lemma err_code_roundtrip e : err_of_code (err_code e) = Some e.
+Proof. destruct e as [|[]|[]|[| | | | |[]| | | |[]|]]; vm_compute; reflexivity. Qed.
+
+Lemma err_of_code_sound code e : err_of_code code = Some e -> err_code e = code.
+Proof.
+  unfold err_of_code. generalize all_dial_errors. induction l as [|x t IH]; cbn [find_code]; [discriminate|].
+  destruct (N.eqb (err_code x) code) eqn:E; [|exact IH].
+  intros [= <-]. apply N.eqb_eq. exact E.
+Qed.
+
+(* the position functions agree with the enumerations (variant i of the Rust enum is the i-th
+   constructor) *)
+Lemma ae_index_nth e : nth_error all_address_errors (N.to_nat (ae_index e)) = Some e.
+Proof. destruct e; reflexivity. Qed.
+Lemma de_index_nth e : nth_error all_dns_errors (N.to_nat (de_index e)) = Some e.
+Proof. destruct e; reflexivity. Qed.
+Lemma pe_index_nth e : nth_error all_parse_errors (N.to_nat (pe_index e)) = Some e.
+Proof. destruct e; reflexivity. Qed.
+Lemma qe_index_nth e : nth_error all_quic_errors (N.to_nat (qe_index e)) = Some e.
+Proof. destruct e; reflexivity. Qed.
+
+(* ---------- error_score with the arms of the source ---------- *)
+
+Definition in_i32 (z : Z) : Prop := I32_MIN <= z <= I32_MAX.
+
+Lemma error_score_negative e : error_score default_scores e < 0.
+Proof.
+  apply Z.ltb_lt. revert e. apply (forall_errors (fun e => error_score default_scores e <? 0)).
+  vm_compute. reflexivity.
+Qed.
+
+Lemma error_score_nonzero e : error_score default_scores e <> 0.
+Proof. pose proof (error_score_negative e). lia. Qed.
+
+Lemma error_score_i32 e : in_i32 (error_score default_scores e).
+Proof.
+  assert (H : (I32_MIN <=? error_score default_scores e) && (error_score default_scores e <=? I32_MAX) = true).
+  { revert e. apply (forall_errors (fun e => (I32_MIN <=? error_score default_scores e) &&
+                                              (error_score default_scores e <=? I32_MAX))).
+    vm_compute. reflexivity. }
+  apply andb_true_iff in H. unfold in_i32. lia.
+Qed.
+
+Definition is_address_error (e : dial_error) : bool :=
+  match e with EAddress _ => true | _ => false end.
+
+(* the mapping as it stands: AddressError -> ADDRESS_FAILURE, everything else -> CONNECTION_FAILURE *)
+Lemma error_score_table e :
+  error_score default_scores e =
+    if is_address_error e then - Z.of_N Consts.SCORE_ADDRESS_FAILURE_NEG
+    else - Z.of_N Consts.SCORE_CONNECTION_FAILURE_NEG.
+Proof.
+  apply Z.eqb_eq. revert e.
+  apply (forall_errors (fun e => error_score default_scores e =?
+           (if is_address_error e then - Z.of_N Consts.SCORE_ADDRESS_FAILURE_NEG
+            else - Z.of_N Consts.SCORE_CONNECTION_FAILURE_NEG))).
+  vm_compute. reflexivity.
+Qed.
+
+Lemma error_score_banned_iff e :
+  error_score default_scores e = I32_MIN <-> exists ae, e = EAddress ae.
+Proof.
+  split.
+  - intro H. destruct e as [|ae|d|n]; [|exists ae; reflexivity| |];
+      exfalso; revert H; rewrite error_score_table; cbn [is_address_error]; vm_compute; discriminate.
+  - intros [ae ->]. rewrite error_score_table. reflexivity.
+Qed.
+
+Lemma established_positive : 0 < sc_established default_scores /\ in_i32 (sc_established default_scores) /\
+                             0 <= bonus default_scores.
+Proof. unfold in_i32. vm_compute. repeat split; discriminate. Qed.
+
+(* a dial failure of any kind on a stored address is never taken for a rediscovery: it re-scores
+   exactly that address, to the score of the kind *)
+Lemma failure_rescores_any_kind s a e v z0 :
+  find a s = Some z0 ->
+  let sc := error_score default_scores e in
+  let s' := fst (insert default_scores s a sc v) in
+  sc < 0 /\ snd (insert default_scores s a sc v) = Updated /\
+  find a s' = Some sc /\ keys s' = keys s /\ forall b, b <> a -> find b s' = find b s.
+Proof.
+  intros H. cbn zeta. split; [apply error_score_negative|].
+  exact (insert_rescore default_scores s a _ v z0 H (error_score_nonzero e)).
+Qed.
+
+(* ---------- state level: a dial result touches one address of one peer ---------- *)
+
+Lemma get_put_same p s b : get p (put p s b) = Some s.
+Proof. rewrite get_put, N.eqb_refl. reflexivity. Qed.
+
+Lemma get_put_other p q s b : q <> p -> get q (put p s b) = get q b.
+Proof. intro H. rewrite get_put. destruct (N.eqb p q) eqn:E; [apply N.eqb_eq in E; congruence | reflexivity]. Qed.
+
+Lemma step_dial_failure_known c k st a e v p z0 :
+  last a (Other 0) = P2p p -> find a (get_or_empty p (bk st)) = Some z0 -> error_score k e <> 0 ->
+  let s := get_or_empty p (bk st) in
+  let st' := fst (step c k st (ODialFailure a e v)) in
+  (exists s', get p (bk st') = Some s' /\ find a s' = Some (error_score k e) /\ keys s' = keys s /\
+              forall b, b <> a -> find b s' = find b s) /\
+  (forall q, q <> p -> get q (bk st') = get q (bk st)) /\
+  lst st' = lst st /\ held st' = held st /\ pubs st' = pubs st.
+Proof.
+  intros Hl Hf Hne. cbn [step]. rewrite Hl. rewrite (with_peer_last p a p Hl).
+  destruct (insert_rescore k (get_or_empty p (bk st)) a (error_score k e) v z0 Hf Hne) as [_ [H1 [H2 H3]]].
+  destruct (insert k (get_or_empty p (bk st)) a (error_score k e) v) as [s' r].
+  cbn [fst set_bk bk lst held pubs] in *. repeat split.
+  - exists s'. rewrite get_put_same. repeat split; assumption.
+  - intros q Hq. apply get_put_other. exact Hq.
+Qed.
+
+Lemma step_established_known c k st peer a v z0 :
+  find (with_peer peer a) (get_or_empty peer (bk st)) = Some z0 -> sc_established k <> 0 ->
+  let s := get_or_empty peer (bk st) in
+  let st' := fst (step c k st (OEstablished peer a false v)) in
+  (exists s', get peer (bk st') = Some s' /\ find (with_peer peer a) s' = Some (sc_established k) /\
+              keys s' = keys s /\ forall b, b <> with_peer peer a -> find b s' = find b s) /\
+  (forall q, q <> peer -> get q (bk st') = get q (bk st)) /\
+  lst st' = lst st /\ held st' = held st /\ pubs st' = pubs st.
+Proof.
+  intros Hf Hne. cbn [step].
+  destruct (insert_rescore k (get_or_empty peer (bk st)) (with_peer peer a) (sc_established k) v z0 Hf Hne)
+    as [_ [H1 [H2 H3]]].
+  destruct (insert k (get_or_empty peer (bk st)) (with_peer peer a) (sc_established k) v) as [s' r].
+  cbn [fst set_bk bk lst held pubs] in *. repeat split.
+  - exists s'. rewrite get_put_same. repeat split; assumption.
+  - intros q Hq. apply get_put_other. exact Hq.
+Qed.
+
+(* ---------- i32: scores saturate at both ends and never leave the range ---------- *)
+
+Lemma sat_add_spec a b :
+  in_i32 (sat_add a b) /\
+  (a + b <= I32_MIN -> sat_add a b = I32_MIN) /\
+  (I32_MAX <= a + b -> sat_add a b = I32_MAX) /\
+  (I32_MIN <= a + b <= I32_MAX -> sat_add a b = a + b).
+Proof. unfold sat_add, in_i32, I32_MIN, I32_MAX. lia. Qed.
+
+Definition kwf (k : scorecfg) : Prop :=
+  in_i32 (sc_established k) /\ Forall (fun x => in_i32 (snd x)) (err_arms k).
+
+Lemma arm_score_range arms path : Forall (fun x => in_i32 (snd x)) arms -> in_i32 (arm_score arms path).
+Proof.
+  induction 1 as [|[p z] t Hh Ht IH]; cbn [arm_score]; [unfold in_i32, I32_MIN, I32_MAX; lia|].
+  destruct (is_prefix p path); [exact Hh | exact IH].
+Qed.
+
+Lemma kwf_error_score k e : kwf k -> in_i32 (error_score k e).
+Proof. intros [_ H]. apply arm_score_range. exact H. Qed.
+
+Lemma kwf_default : kwf default_scores.
+Proof.
+  split; [exact (proj1 (proj2 established_positive))|].
+  cbn [err_arms default_scores]. unfold in_i32.
+  apply Forall_forall. intros x Hx.
+  assert (H : forallb (fun x => (I32_MIN <=? snd x) && (snd x <=? I32_MAX)) DialErrors.error_score_arms = true)
+    by (vm_compute; reflexivity).
+  rewrite forallb_forall in H. specialize (H _ Hx). apply andb_true_iff in H. lia.
+Qed.
+
+Definition ranged (s : store) : Prop := Forall (fun x => in_i32 (snd x)) s.
+
+Lemma ranged_set_score a z s : ranged s -> in_i32 z -> ranged (set_score a z s).
+Proof.
+  unfold ranged. induction 1 as [|[b y] t Hh Ht IH]; cbn [set_score]; intro Hz; [constructor|].
+  destruct (maddr_eqb b a).
+  - constructor; [exact Hz | exact Ht].
+  - constructor; [exact Hh | exact (IH Hz)].
+Qed.
+
+Lemma ranged_remove a s : ranged s -> ranged (remove a s).
+Proof.
+  intro H. apply Forall_forall. intros x Hx. unfold ranged in H. rewrite Forall_forall in H.
+  apply H. exact (remove_in_incl _ _ _ Hx).
+Qed.
+
+Lemma insert_ranged k s a sc v : ranged s -> in_i32 sc -> ranged (fst (insert k s a sc v)).
+Proof.
+  intros Hs Hsc. unfold insert.
+  assert (Hn : in_i32 (if is_global a then sat_add sc (bonus k) else sc)).
+  { destruct (is_global a); [exact (proj1 (sat_add_spec _ _)) | exact Hsc]. }
+  destruct (find a s).
+  - destruct (sc =? 0); cbn [fst]; [exact Hs | apply ranged_set_score; assumption].
+  - destruct (cap k <=? length s)%nat.
+    + destruct (min_score s) as [m|]; [|exact Hs].
+      destruct ((if is_global a then sat_add sc (bonus k) else sc) <? m); [exact Hs|].
+      destruct v as [v|]; [|exact Hs]. destruct (find v s) as [vs|]; [|exact Hs].
+      destruct (vs =? m); [|exact Hs]. cbn [fst]. apply Forall_app. split; [apply ranged_remove; exact Hs|].
+      constructor; [exact Hn | constructor].
+    + cbn [fst]. apply Forall_app. split; [exact Hs|]. constructor; [exact Hn | constructor].
+Qed.
+
+Lemma zero_i32 : in_i32 0.
+Proof. unfold in_i32, I32_MIN, I32_MAX. lia. Qed.
+
+Lemma insert_all_ranged k s l victims : ranged s -> ranged (fst (insert_all k s l victims)).
+Proof.
+  revert s victims. induction l as [|a t IH]; intros s victims Hs; cbn [insert_all]; [exact Hs|].
+  set (v := match victims with v :: _ => Some v | [] => None end).
+  pose proof (insert_ranged k s a 0 v Hs zero_i32) as H1.
+  destruct (insert k s a 0 v) as [s1 r]. cbn [fst] in H1.
+  set (victims' := match r with Evicted _ => tl victims | _ => victims end).
+  specialize (IH s1 victims' H1). destruct (insert_all k s1 t victims') as [s2 bad]. exact IH.
+Qed.
+
+Lemma fail_each_ranged k s l : kwf k -> ranged s -> ranged (fail_each k s l).
+Proof.
+  intro Hk. revert s. induction l as [|[a e] t IH]; intros s Hs; cbn [fail_each]; [exact Hs|].
+  apply IH. apply insert_ranged; [exact Hs | apply kwf_error_score; exact Hk].
+Qed.
+
+Lemma succeed_at_ranged k s peer l j : kwf k -> ranged s -> ranged (succeed_at k s peer l j).
+Proof.
+  intros Hk Hs. unfold succeed_at. pose proof (fail_each_ranged k s (firstn j l) Hk Hs) as H1.
+  destruct (nth_error l j) as [[a e]|]; [|exact H1].
+  apply insert_ranged; [|exact (proj1 Hk)]. apply insert_ranged; [exact H1 | exact (proj1 Hk)].
+Qed.
+
+Lemma dial_outcome_ranged k s peer outcome errs tcp ws :
+  kwf k -> ranged s -> ranged (dial_outcome k s peer outcome errs tcp ws).
+Proof.
+  intros Hk Hs. unfold dial_outcome. destruct outcome as [|j0].
+  - apply fail_each_ranged; [exact Hk|]. apply fail_each_ranged; assumption.
+  - destruct (j0 mod (length tcp + length ws) <? length tcp)%nat; apply succeed_at_ranged; assumption.
+Qed.
+
+Definition RInv (b : book) : Prop := forall p s, get p b = Some s -> ranged s.
+
+(* raw inserts must carry an i32 *)
+Definition op_i32 (o : op) : Prop :=
+  match o with OInsert _ _ sc _ => in_i32 sc | _ => True end.
+
+Lemma rinv_get_or_empty b p : RInv b -> ranged (get_or_empty p b).
+Proof. intro H. unfold get_or_empty. destruct (get p b) eqn:E; [exact (H _ _ E) | constructor]. Qed.
+
+Lemma rinv_put b p s : RInv b -> ranged s -> RInv (put p s b).
+Proof.
+  intros Hb Hs q s0. rewrite get_put. destruct (N.eqb p q); [intros [= <-]; exact Hs | apply Hb].
+Qed.
+
+Lemma step_ranged c k st o : kwf k -> RInv (bk st) -> op_i32 o -> RInv (bk (fst (step c k st o))).
+Proof.
+  intros Hk Hb Hw.
+  destruct o as [peer addrs order victims | a f victim | peer a listener victim
+                | peer limit obs | a | a | n | peer outcome errs tcp ws
+                | peer a sc victim | a res victims | a | a]; cbn [step].
+  - destruct (same_set order (accepted c (lst st) peer addrs)); [|exact Hb].
+    pose proof (insert_all_ranged k (get_or_empty peer (bk st)) order victims (rinv_get_or_empty _ peer Hb)) as H.
+    destruct (insert_all k (get_or_empty peer (bk st)) order victims) as [s' bad].
+    cbn [fst set_bk bk] in *. apply rinv_put; assumption.
+  - destruct (last a (Other 0)); try exact Hb.
+    pose proof (insert_ranged k (get_or_empty p (bk st)) (with_peer p a) (error_score k f) victim
+                  (rinv_get_or_empty _ p Hb) (kwf_error_score k f Hk)) as H.
+    destruct (insert k (get_or_empty p (bk st)) (with_peer p a) (error_score k f) victim) as [s' r].
+    cbn [fst set_bk bk] in *. apply rinv_put; assumption.
+  - destruct listener; [exact Hb|].
+    pose proof (insert_ranged k (get_or_empty peer (bk st)) (with_peer peer a) (sc_established k) victim
+                  (rinv_get_or_empty _ peer Hb) (proj1 Hk)) as H.
+    destruct (insert k (get_or_empty peer (bk st)) (with_peer peer a) (sc_established k) victim) as [s' r].
+    cbn [fst set_bk bk] in *. apply rinv_put; assumption.
+  - exact Hb.
+  - exact Hb.
+  - exact Hb.
+  - destruct (en_tcp c || feat_ws c && en_ws c); exact Hb.
+  - destruct (existsb _ (get_or_empty peer (bk st))); [exact Hb|].
+    destruct (free_capacity c st (length (get_or_empty peer (bk st)))); [|exact Hb].
+    destruct (N.eqb peer (local_peer c)); [exact Hb|].
+    destruct (get_or_empty peer (bk st)) eqn:Hs; [exact Hb|]. rewrite <- Hs.
+    match goal with |- context [if ?X then _ else _] => destruct X end; [|exact Hb].
+    cbn [fst set_bk bk]. apply rinv_put; [exact Hb|].
+    apply dial_outcome_ranged; [exact Hk | apply rinv_get_or_empty; exact Hb].
+  - cbn [op_i32] in Hw.
+    pose proof (insert_ranged k (get_or_empty peer (bk st)) (with_peer peer a) sc victim
+                  (rinv_get_or_empty _ peer Hb) Hw) as H.
+    destruct (insert k (get_or_empty peer (bk st)) (with_peer peer a) sc victim) as [s' r].
+    cbn [fst set_bk bk] in *. apply rinv_put; assumption.
+  - destruct (dial_addr_check c st a) as [| | | |t q]; try exact Hb.
+    pose proof (insert_ranged k (get_or_empty q (bk st)) a 0 (hd_error victims)
+                  (rinv_get_or_empty _ q Hb) zero_i32) as H1.
+    destruct (insert k (get_or_empty q (bk st)) a 0 (hd_error victims)) as [s1 r1]. cbn [fst] in H1.
+    set (victims1 := match r1 with Evicted _ => tl victims | _ => victims end).
+    set (sc := match res with Some e => error_score k e | None => sc_established k end).
+    assert (Hsc : in_i32 sc) by (unfold sc; destruct res; [apply kwf_error_score; exact Hk | exact (proj1 Hk)]).
+    pose proof (insert_ranged k s1 a sc (hd_error victims1) H1 Hsc) as H2.
+    destruct (insert k s1 a sc (hd_error victims1)) as [s2 r2].
+    cbn [fst set_bk bk] in *. apply rinv_put; assumption.
+  - destruct (public_add c (pubs st) a). exact Hb.
+  - exact Hb.
+Qed.
+
+Lemma run_ranged c k h st : kwf k -> RInv (bk st) -> Forall op_i32 h -> RInv (bk (fst (run c k st h))).
+Proof.
+  intro Hk. revert st. induction h as [|o t IH]; intros st Hs Hw; cbn [run]; [exact Hs|].
+  inversion Hw as [|? ? Ho Ht]; subst.
+  pose proof (step_ranged c k st o Hk Hs Ho) as H1.
+  destruct (step c k st o) as [st1 r]. cbn [fst] in H1.
+  specialize (IH st1 H1 Ht). destruct (run c k st1 t) as [st2 rs]. exact IH.
+Qed.
+
+Lemma final_scores_i32 c h p s a z :
+  Forall op_i32 h -> get p (bk (final c default_scores h)) = Some s -> In (a, z) s -> in_i32 z.
+Proof.
+  intros Hw Hg Hin.
+  assert (H : RInv (bk (final c default_scores h))).
+  { apply run_ranged; [apply kwf_default | intros q s0; cbn; discriminate | exact Hw]. }
+  specialize (H _ _ Hg). unfold ranged in H. rewrite Forall_forall in H. exact (H _ Hin).
+Qed.
+
+(* ---------- PublicAddresses and the listen set: the /p2p suffix rule ---------- *)
+
+Definition pub_ok (c : cfg) (a : maddr) : Prop := a <> [] /\ last a (Other 0) = P2p (local_peer c).
+
+Lemma last_snoc {A} (l : list A) x d : last (l ++ [x]) d = x.
+Proof. induction l as [|y t IH]; [reflexivity|]. cbn [app]. destruct (t ++ [x]) eqn:E; [destruct t; discriminate|]. exact IH. Qed.
+
+Definition public_form (c : cfg) (a : maddr) : maddr :=
+  match last a (Other 0) with P2p _ => a | _ => a ++ [P2p (local_peer c)] end.
+
+Lemma public_add_spec c ps a :
+  match snd (public_add c ps a) with
+  | PubEmpty => a = [] /\ fst (public_add c ps a) = ps
+  | PubDifferent => (exists q, last a (Other 0) = P2p q /\ q <> local_peer c) /\ fst (public_add c ps a) = ps
+  | PubAdded new =>
+      a <> [] /\ pub_ok c (public_form c a) /\
+      new = negb (existsb (maddr_eqb (public_form c a)) ps) /\
+      fst (public_add c ps a) = if new then ps ++ [public_form c a] else ps
+  end.
+Proof.
+  unfold public_add, public_form. destruct a as [|x t]; [split; reflexivity|].
+  set (a := x :: t). destruct (last a (Other 0)) eqn:Hl;
+    try (destruct (existsb (maddr_eqb (a ++ [P2p (local_peer c)])) ps) eqn:E; cbn [fst snd];
+         (split; [discriminate|]); (split; [split; [destruct a; discriminate | apply last_snoc]|]);
+         split; reflexivity).
+  destruct (N.eqb p (local_peer c)) eqn:Ep.
+  - apply N.eqb_eq in Ep. subst p.
+    destruct (existsb (maddr_eqb a) ps) eqn:E; cbn [fst snd];
+      (split; [discriminate|]); (split; [split; [discriminate | exact Hl]|]); split; reflexivity.
+  - cbn [fst snd]. split; [|reflexivity]. exists p. split; [reflexivity|]. apply N.eqb_neq. exact Ep.
+Qed.
+
+Lemma remove_addr_in a l x : In x (remove_addr a l) -> In x l.
+Proof.
+  induction l as [|b t IH]; cbn [remove_addr]; [intros []|].
+  destruct (maddr_eqb b a); cbn [In]; [intro H; now right|].
+  intros [H|H]; [now left | right; exact (IH H)].
+Qed.
+
+Lemma remove_addr_nodup a l : NoDup l -> NoDup (remove_addr a l).
+Proof.
+  induction 1 as [|b t Hn Hd IH]; cbn [remove_addr]; [constructor|].
+  destruct (maddr_eqb b a); [exact Hd|]. constructor; [|exact IH].
+  intro H. apply Hn. exact (remove_addr_in _ _ _ H).
+Qed.
+
+Lemma remove_addr_spec a l x : NoDup l -> (In x (remove_addr a l) <-> In x l /\ x <> a).
+Proof.
+  induction 1 as [|b t Hn Hd IH]; cbn [remove_addr In]; [tauto|].
+  destruct (maddr_eqb b a) eqn:E.
+  - apply maddr_eqb_spec in E. subst b. split.
+    + intro H. split; [now right|]. intros ->. contradiction.
+    + intros [[H|H] Hx]; [congruence | exact H].
+  - apply maddr_eqb_false in E. cbn [In]. rewrite IH. split.
+    + intros [H|[H1 H2]]; [subst; split; [now left | exact E] | split; [now right | exact H2]].
+    + intros [[H|H] Hx]; [now left | right; split; assumption].
+Qed.
+
+Definition PInv (c : cfg) (st : state) : Prop := Forall (pub_ok c) (pubs st) /\ NoDup (pubs st).
+
+Lemma step_pubs c k st o : PInv c st -> PInv c (fst (step c k st o)).
+Proof.
+  intros [Hf Hn].
+  assert (Hsame : forall st', pubs st' = pubs st -> PInv c st') by (intros st' E; unfold PInv; rewrite E; split; assumption).
+  destruct o as [peer addrs order victims | a f victim | peer a listener victim
+                | peer limit obs | a | a | n | peer outcome errs tcp ws
+                | peer a sc victim | a res victims | a | a]; cbn [step].
+  - destruct (same_set _ _); [|apply Hsame; reflexivity].
+    destruct (insert_all _ _ _ _). apply Hsame. reflexivity.
+  - destruct (last a (Other 0)); try (apply Hsame; reflexivity).
+    destruct (insert _ _ _ _ _). apply Hsame. reflexivity.
+  - destruct listener; [apply Hsame; reflexivity|]. destruct (insert _ _ _ _ _). apply Hsame. reflexivity.
+  - apply Hsame. reflexivity.
+  - apply Hsame. reflexivity.
+  - apply Hsame. reflexivity.
+  - destruct (en_tcp c || feat_ws c && en_ws c); apply Hsame; reflexivity.
+  - destruct (existsb _ _); [apply Hsame; reflexivity|].
+    destruct (free_capacity _ _ _); [|apply Hsame; reflexivity].
+    destruct (N.eqb _ _); [apply Hsame; reflexivity|].
+    destruct (get_or_empty peer (bk st)); [apply Hsame; reflexivity|].
+    match goal with |- context [if ?X then _ else _] => destruct X end; apply Hsame; reflexivity.
+  - destruct (insert _ _ _ _ _). apply Hsame. reflexivity.
+  - destruct (dial_addr_check c st a); try (apply Hsame; reflexivity).
+    destruct (insert _ _ _ _ _) as [s1 r1]. destruct (insert _ _ _ _ _). apply Hsame. reflexivity.
+  - pose proof (public_add_spec c (pubs st) a) as H.
+    destruct (public_add c (pubs st) a) as [ps r]. cbn [fst snd pubs] in *.
+    destruct r as [| |new].
+    + destruct H as [_ ->]. split; assumption.
+    + destruct H as [_ ->]. split; assumption.
+    + destruct H as [_ [Hok [Hnew ->]]]. destruct new; [|split; assumption]. split.
+      * apply Forall_app. split; [exact Hf|]. constructor; [exact Hok | constructor].
+      * apply nodup_snoc; [exact Hn|]. intro Hin. apply existsb_maddr in Hin.
+        rewrite Hin in Hnew. discriminate.
+  - cbn [fst pubs]. split; [|apply remove_addr_nodup; exact Hn].
+    apply Forall_forall. intros x Hx. rewrite Forall_forall in Hf. apply Hf.
+    exact (remove_addr_in _ _ _ Hx).
+Qed.
+
+Lemma run_pubs c k h st : PInv c st -> PInv c (fst (run c k st h)).
+Proof.
+  revert st. induction h as [|o t IH]; intros st Hs; cbn [run]; [exact Hs|].
+  pose proof (step_pubs c k st o Hs) as H1.
+  destruct (step c k st o) as [st1 r]. cbn [fst] in H1.
+  specialize (IH st1 H1). destruct (run c k st1 t) as [st2 rs]. exact IH.
+Qed.
+
+Lemma final_pubs c k h a : In a (pubs (final c k h)) -> pub_ok c a.
+Proof.
+  intro H. assert (Hi : PInv c (final c k h)) by (apply run_pubs; split; constructor).
+  destruct Hi as [Hf _]. rewrite Forall_forall in Hf. exact (Hf _ H).
+Qed.
+
+Lemma listen_set_spec c ls a :
+  In a (listen_set c ls) <-> exists l, In l ls /\ (a = l \/ a = l ++ [P2p (local_peer c)]).
+Proof.
+  unfold listen_set. rewrite in_flat_map. split.
+  - intros [l [Hl [H|[H|[]]]]]; exists l; split; auto.
+  - intros [l [Hl [H|H]]]; exists l; (split; [exact Hl|]); subst; cbn; auto.
+Qed.
+
+(* ---------- dial_address at the level of the whole state ---------- *)
+
+(* the address is already stored: its record is kept (score 0 = rediscovery), then the result of
+   the dial re-scores exactly it *)
+Lemma step_dial_addr_known c k st a res vs t q z0 :
+  dial_addr_check c st a = DAOk t q -> find a (get_or_empty q (bk st)) = Some z0 ->
+  let sc := match res with Some e => error_score k e | None => sc_established k end in
+  sc <> 0 ->
+  let s := get_or_empty q (bk st) in
+  let st' := fst (step c k st (ODialAddr a res vs)) in
+  (exists s', get q (bk st') = Some s' /\ find a s' = Some sc /\ keys s' = keys s /\
+              forall b, b <> a -> find b s' = find b s) /\
+  (forall p, p <> q -> get p (bk st') = get p (bk st)) /\
+  lst st' = lst st /\ held st' = held st /\ pubs st' = pubs st.
+Proof.
+  intros Hd Hf sc Hsc. cbn [step]. rewrite Hd.
+  rewrite (insert_rediscovery k _ a (hd_error vs) z0 Hf).
+  destruct (insert_rescore k (get_or_empty q (bk st)) a sc (hd_error vs) z0 Hf Hsc) as [_ [H1 [H2 H3]]].
+  fold sc. destruct (insert k (get_or_empty q (bk st)) a sc (hd_error vs)) as [s' r].
+  cbn [fst set_bk bk lst held pubs] in *. repeat split.
+  - exists s'. rewrite get_put_same. repeat split; assumption.
+  - intros p Hp. apply get_put_other. exact Hp.
+Qed.
+
+(* the address is new and there is room: it is remembered, with the score of the dial's result
+   (no bonus: the bonus went to the score-0 record stored before dialing) *)
+Lemma step_dial_addr_new c k st a res vs t q :
+  dial_addr_check c st a = DAOk t q -> find a (get_or_empty q (bk st)) = None ->
+  (length (get_or_empty q (bk st)) < cap k)%nat ->
+  let sc := match res with Some e => error_score k e | None => sc_established k end in
+  sc <> 0 ->
+  let s := get_or_empty q (bk st) in
+  let st' := fst (step c k st (ODialAddr a res vs)) in
+  (exists s', get q (bk st') = Some s' /\ find a s' = Some sc /\ keys s' = keys s ++ [a] /\
+              forall b, b <> a -> find b s' = find b s) /\
+  (forall p, p <> q -> get p (bk st') = get p (bk st)).
+Proof.
+  intros Hd Hf Hroom sc Hsc. cbn [step]. rewrite Hd.
+  rewrite (insert_room k _ a 0 (hd_error vs) Hf Hroom).
+  set (s1 := get_or_empty q (bk st) ++ [(a, new_score k a 0)]).
+  assert (Hf1 : find a s1 = Some (new_score k a 0)).
+  { unfold s1. rewrite find_app, Hf. cbn [find]. rewrite maddr_eqb_refl. reflexivity. }
+  destruct (insert_rescore k s1 a sc (hd_error vs) _ Hf1 Hsc) as [_ [H1 [H2 H3]]].
+  fold sc. destruct (insert k s1 a sc (hd_error vs)) as [s' r].
+  cbn [fst set_bk bk] in *. split.
+  - exists s'. rewrite get_put_same. repeat split; try assumption.
+    + rewrite H2. unfold s1. rewrite keys_app. reflexivity.
+    + intros b Hb. rewrite (H3 b Hb). unfold s1. rewrite find_app. cbn [find].
+      rewrite (maddr_eqb_neq a b) by congruence. destruct (find b (get_or_empty q (bk st))); reflexivity.
+  - intros p Hp. apply get_put_other. exact Hp.
+Qed.
+
+(* ---------- below the bound no addition ever changes a recorded score ---------- *)
+
+Lemma insert_all_keeps_scores k s l vs b z :
+  NoDup (keys s) -> (length s + length l <= cap k)%nat -> find b s = Some z ->
+  find b (fst (insert_all k s l vs)) = Some z /\ snd (insert_all k s l vs) = false.
+Proof.
+  revert s vs. induction l as [|a t IH]; intros s vs Hnd Hlen Hb; cbn [insert_all]; [split; [exact Hb | reflexivity]|].
+  cbn [length] in Hlen.
+  set (v := match vs with v :: _ => Some v | [] => None end).
+  destruct (find a s) as [z0|] eqn:Ha.
+  - rewrite (insert_rediscovery k s a v z0 Ha).
+    destruct (IH s vs Hnd ltac:(lia) Hb) as [H1 H2].
+    destruct (insert_all k s t vs) as [s2 bad]. cbn [fst snd] in *. split; assumption.
+  - rewrite (insert_room k s a 0 v Ha ltac:(lia)).
+    set (s1 := s ++ [(a, new_score k a 0)]).
+    assert (Hnd1 : NoDup (keys s1)).
+    { unfold s1. rewrite keys_app. cbn [keys map]. apply nodup_snoc; [exact Hnd|].
+      apply find_none_notin. exact Ha. }
+    assert (Hb1 : find b s1 = Some z) by (unfold s1; rewrite find_app, Hb; reflexivity).
+    assert (Hl1 : (length s1 + length t <= cap k)%nat).
+    { unfold s1. rewrite app_length. cbn [length]. lia. }
+    destruct (IH s1 vs Hnd1 Hl1 Hb1) as [H1 H2].
+    destruct (insert_all k s1 t vs) as [s2 bad]. cbn [fst snd] in *. split; assumption.
 Qed.
